@@ -79,4 +79,7 @@ void vk_user_fd(int i);			/* (re)create scripted descriptor 100+i, open, no cond
 int vk_cond(int fd);			/* current condition bits of any virtual descriptor */
 int vk_is_virtual(int fd);
 
+/* bit 0 = O_NONBLOCK, bit 1 = FD_CLOEXEC, -1 = not an open virtual descriptor */
+int vk_fd_flags(int fd);
+
 #endif
